@@ -1,18 +1,18 @@
-\* C11 thorough: two edits (both sides emptied, delete then recreate ...)
+\* persistence faults: the sessions / archives directory becomes unavailable once (saves and removals fail), commands are retried, the manager restarts
 CONSTANTS
- Mixes <- MixesC11q
- StartPaused = {FALSE}
+ Mixes <- MixesPersist
+ StartPaused = {FALSE, TRUE}
  Mode = "tws"
  InitTree <- D2
  InitArchive <- D2
- EditVals <- EditsC11
- EditSides = {"alpha", "beta"}
+ EditVals <- EditsC29
+ EditSides = {"alpha"}
  EventSides = {"alpha"}
- MaxEdits = 2
+ MaxEdits = 1
  MaxEvents = 0
  MaxFaults = 0
  MaxTicks = 0
- MaxBreaks = 0
+ MaxBreaks = 1
  Export = FALSE
  RunToBlock = FALSE
  Mut = "none"
